@@ -476,10 +476,12 @@ def rule_r4(chk, prog):
                         x) == f'{gold}.runtime'
             facts = facts_at(g, st.value)
             guard = (f'options.args().{opt} is None', True) in facts
-            foreign = [t for (t, p) in facts
-                       if t.startswith('options.args().timeout')
-                       and ' is None' in t
-                       and t != f'options.args().{opt} is None']
+            # "exactly when the option is None": the only other facts the
+            # assignment may depend on are the presence of the command
+            allowed = {f'options.args().{opt} is None',
+                       'options.args().cmd_cc', 'options.args().cmd'}
+            foreign = sorted(t for (t, p) in facts
+                             if 'options.args().' in t and t not in allowed)
             ok = shape and guard and not foreign
             msg = ''
             if not shape:
@@ -488,8 +490,8 @@ def rule_r4(chk, prog):
             if not guard:
                 msg += f'not guarded by "{opt} is None"; '
             if foreign:
-                msg += (f'additionally guarded by {foreign}: with the other '
-                        f'limit given explicitly --{opt} stays None and the '
+                msg += (f'additionally guarded by {foreign}: under that '
+                        f'condition --{opt} stays None and the '
                         'corresponding command runs without any time limit')
         chk.check('C10.R4', gw, f'default of --{opt}', ok, msg, loc=m.loc(g),
                   nontrivial=True)
